@@ -321,7 +321,13 @@ class Cluster:
             contains the blocking jobs for each job to be resubmitted
 
         """
-        # Locking is not required for this function.
+        # Hold the lock so that readers (show-status) never see the config and the job status
+        # disagree in the middle of the reset.
+        self._do_action_under_lock(
+            self._prepare_for_resubmission, jobs_to_resubmit, updated_blocking_jobs_by_name
+        )
+
+    def _prepare_for_resubmission(self, jobs_to_resubmit, updated_blocking_jobs_by_name):
         assert self._config.is_complete
         self._config.is_complete = False
         self._config.submitted_jobs = 0
